@@ -26,7 +26,7 @@ pub fn spec() -> Spec {
     Spec {
         prop: "C02",
         level: "exploration",
-        rule: "Twin processes (own HashMap seeds and directories; the child twin is stopped and reopened after commits) replay one recorded call list; every response and Obs at every block boundary compared after key-order canonicalisation and zeroing mineTimestamp, list order kept. Plus sha256 digests of a fixed, seed-independent corpus (all contract ops, every precompile, deposits/withdrawals, parked+drained signed transactions, multi-tx blocks) on regtest/signet/bitcoin against /verif/golden/<network>.json recorded under the same protocol/db version. Time-shifted twin: a short history with supplied timestamps 0 / u64::MAX and server-generated hashes is served by two instances 1.2 s apart (wall-clock time must not leak); the golden corpus ends with the same calls. Flood twin (one shard in sixteen): more than a thousand transactions parked at once by 120-140 senders, then predecessors arrive; both processes must show the same pool and the same drains. Non-trivial = a compared list-valued result with >=2 elements (logs, block transaction lists, raw receipts, trace strings); distinct by (history digest, query).",
+        rule: "Twin processes (own HashMap seeds and directories; the child twin is stopped and reopened after commits and also serves simulations as of heights around and beyond the rule-change heights that its sibling never sees) replay one recorded call list; every response and Obs at every block boundary compared after key-order canonicalisation and zeroing mineTimestamp, list order kept. Plus sha256 digests of a fixed, seed-independent corpus (all contract ops, every precompile, deposits/withdrawals, parked+drained signed transactions, multi-tx blocks) on regtest/signet/bitcoin against /verif/golden/<network>.json recorded under the same protocol/db version. Time-shifted twin: a short history with supplied timestamps 0 / u64::MAX and server-generated hashes is served by two instances 1.2 s apart (wall-clock time must not leak); the golden corpus ends with the same calls. Flood twin (one shard in sixteen): more than a thousand transactions parked at once by 120-140 senders, then predecessors arrive; both processes must show the same pool and the same drains. Non-trivial = a compared list-valued result with >=2 elements (logs, block transaction lists, raw receipts, trace strings); distinct by (history digest, query).",
         assumptions: vec![
             "golden digests pin today's behaviour of the listed corpus under protocol version/db version recorded in the golden file; if versions differ the golden comparison is skipped and reported as inconclusive".into(),
             "eth_call-type observations are restricted to time-independent code".into(),
@@ -97,6 +97,20 @@ fn override_probes(inst: &mut crate::rpc::Inst, out: &mut BTreeMap<String, Value
     }
 }
 
+/// Set in the child twin: it also serves queries its sibling never sees (simulations "as of" heights
+/// around and far beyond the rule-change heights). The statement binds the answers to the indexer
+/// calls, not to what else an instance was asked.
+pub static EXTRA_READS: std::sync::atomic::AtomicBool = std::sync::atomic::AtomicBool::new(false);
+
+fn extra_reads(inst: &mut crate::rpc::Inst, k: usize) {
+    let heights = [274_999u64, 275_000, 923_369, 929_000, 5_000_000];
+    let b = format!("0x{:x}", heights[k % heights.len()]);
+    let call = json!({"to": hist::CONTROLLER, "data": "0x18160ddd"});
+    let _ = inst.call("eth_call", json!([call.clone(), b.clone()]));
+    let _ = inst.call("eth_estimateGas", json!([call.clone(), b.clone()]));
+    let _ = inst.call("eth_callMany", json!([[call], b]));
+}
+
 pub fn replay_with_obs_probes(ops: &[Op], u: &Universe, reopen_after_commit: bool, probes: bool) -> TwinOut {
     let mut d = new_driver("C02");
     let mut out = TwinOut::default();
@@ -110,6 +124,9 @@ pub fn replay_with_obs_probes(ops: &[Op], u: &Universe, reopen_after_commit: boo
         if boundary {
             let mut uu = u.clone();
             uu.max_height = d.height.max(0) as u64;
+            if EXTRA_READS.load(std::sync::atomic::Ordering::Relaxed) {
+                extra_reads(&mut d.inst, out.obs.len());
+            }
             let mut entries = obs::observe(&mut d.inst, &uu, ObsMode::Boundary).entries;
             if probes && out.obs.len() % 4 == 1 {
                 override_probes(&mut d.inst, &mut entries);
@@ -530,6 +547,7 @@ pub fn worker(ctx: &WorkerCtx) -> WorkerReport {
         crate::setup_env(&net, traces);
         let ops: Vec<Op> = serde_json::from_value(v["ops"].clone()).expect("ops");
         let u = universe_from(&v["universe"]);
+        EXTRA_READS.store(true, std::sync::atomic::Ordering::Relaxed);
         let out = replay_with_obs(&ops, &u, true);
         std::fs::write(&ctx.extra[2], serde_json::to_string(&out).unwrap()).expect("write twin result");
         return rep;
